@@ -1,4 +1,5 @@
 import DoviModel.Model.Editor
+import DoviModel.Props.C12
 /-! # C17 — determinism: the editor model depends only on the content of its map-typed config entries -/
 namespace Dovi.C17
 open Dovi Dovi.Editor
@@ -97,5 +98,49 @@ theorem activeArea_order_independent (ps : List Preset) (e e' : List (String × 
 
 /-! non-vacuity: two overlapping ranges listed in both orders -/
 example : asMap [("0-5", true), ("2-3", false)] = asMap [("2-3", false), ("0-5", true)] := by decide
+
+/-! ## block lists built from unordered sources (XML target displays come out of a hash map) -/
+
+theorem key_inj_of_pairwise (l : List Block) (hk : l.Pairwise (fun a b => a.sortKey ≠ b.sortKey))
+    (a b : Block) (ha : a ∈ l) (hb : b ∈ l) (h : a.sortKey = b.sortKey) : a = b := by
+  induction l with
+  | nil => cases ha
+  | cons x xs ih =>
+    rw [List.pairwise_cons] at hk
+    obtain ⟨hx, hxs⟩ := hk
+    rcases List.mem_cons.mp ha with rfl | ha'
+    · rcases List.mem_cons.mp hb with rfl | hb'
+      · rfl
+      · exact absurd h (hx b hb')
+    · rcases List.mem_cons.mp hb with rfl | hb'
+      · exact absurd h.symm (hx a ha')
+      · exact ih hxs ha' hb'
+
+/-- **the sorted container does not depend on the order in which the blocks were produced** — whenever the
+(level, target) keys are pairwise distinct (one L10/L8/L2 block per target, one block per single-instance level),
+any permutation of the same blocks sorts to the same list. With tied keys the stable sort keeps the production
+order of the tied blocks, which is where a hash-map iteration order would show (seeded change C17-1). -/
+theorem sortBlocks_order_independent (l l' : List Block) (hp : l.Perm l')
+    (hk : l.Pairwise (fun a b => a.sortKey ≠ b.sortKey)) : sortBlocks l = sortBlocks l' := by
+  apply List.Perm.eq_of_pairwise (le := fun a b => keyLt b a = false)
+  · intro a b ha hb h1 h2
+    have ha' : a ∈ l := (C12.mem_sortBlocks a l).mp ha
+    have hb' : b ∈ l := hp.symm.subset ((C12.mem_sortBlocks b l').mp hb)
+    apply key_inj_of_pairwise l hk a b ha' hb'
+    -- neither key is strictly smaller: the keys are equal
+    have n1 : ¬ (b.sortKey.1 < a.sortKey.1 ∨ (b.sortKey.1 = a.sortKey.1 ∧ b.sortKey.2 < a.sortKey.2)) := by
+      intro h; have := (C12.keyLt_iff b a).mpr h; rw [h1] at this; cases this
+    have n2 : ¬ (a.sortKey.1 < b.sortKey.1 ∨ (a.sortKey.1 = b.sortKey.1 ∧ a.sortKey.2 < b.sortKey.2)) := by
+      intro h; have := (C12.keyLt_iff a b).mpr h; rw [h2] at this; cases this
+    apply Prod.ext <;> omega
+  · exact C12.sortBlocks_sorted l
+  · exact C12.sortBlocks_sorted l'
+  · exact (C12.sortBlocks_perm l).trans (hp.trans (C12.sortBlocks_perm l').symm)
+
+/-- non-vacuity: two L10 blocks of different targets and an L9 block, in two production orders -/
+example : sortBlocks [{ level := 10, length := 5, vals := [7, 2081, 0, 2] }, { level := 9, length := 1, vals := [0] },
+      { level := 10, length := 5, vals := [3, 2081, 0, 2] }] =
+    sortBlocks [{ level := 10, length := 5, vals := [3, 2081, 0, 2] }, { level := 10, length := 5, vals := [7, 2081, 0, 2] },
+      { level := 9, length := 1, vals := [0] }] := by decide
 
 end Dovi.C17
